@@ -24,6 +24,13 @@ from vf.runner import Violation
 
 FRAME_BYTES = 2 * C.sizeof(C.c_size_t) + C.sizeof(C.c_void_p)   # mjStackFrame {size_t, size_t, void*}
 OPCODE = dict(mark=0, free=1, byte=2, num=3, int=4, arena=5, info=6)
+# astronomically large requests (bytes): around the address range of the arena (2^47), 2^48, 2^62, 2^63 and "negative" sizes
+# 2^64-k (what an overflowed int count turns into); expected: error (stack) / NULL (arena), no pointer moved
+HUGE = [2 ** 47 - 4096, 2 ** 47, 2 ** 47 + 12345, 2 ** 48, 2 ** 48 + 8, 2 ** 56, 2 ** 62, 2 ** 63 - 8, 2 ** 63, 2 ** 63 + 64,
+        2 ** 64 - 1, 2 ** 64 - 8, 2 ** 64 - 64, 2 ** 64 - 4096, 2 ** 64 - 2 ** 20]
+# element counts for mj_stackAllocNum / mj_stackAllocInt whose byte size is huge or overflows size_t
+HUGE_COUNT = [2 ** 44, 2 ** 45, 2 ** 59, 2 ** 60, 2 ** 61 - 2, 2 ** 61 - 1, 2 ** 61, 2 ** 61 + 1, 2 ** 62 - 1, 2 ** 62, 2 ** 62 + 3,
+              2 ** 63, 2 ** 64 - 1, 2 ** 64 - 2]
 REM = [0, 1, 2, 3, 7, 8, 9, 15, 16, 23, 24, 25, 31, 32, 33, 63, 64, 65, 87, 88, 89, 95, 96, 127, 128, 129, 255, 256]
 
 
@@ -57,6 +64,7 @@ def sizespec():
       st.tuples(st.just('rem'), st.sampled_from(REM)),            # avail - k   (fits exactly / nearly)
       st.tuples(st.just('over'), st.sampled_from([1, 2, 8, 64, 1000])),   # avail + k   (cannot fit)
       st.tuples(st.just('frac'), st.integers(1, 7)),              # avail * j / 8
+      st.tuples(st.just('huge'), st.integers(0, 10 ** 6)),        # index into HUGE / HUGE_COUNT
   )
 
 
@@ -226,9 +234,18 @@ class Machine:
           size = max(0, avail - self.slack - spec[1])
         elif spec[0] == 'over':
           size = avail + spec[1]
+        elif spec[0] == 'huge':
+          size = HUGE[spec[1] % len(HUGE)]
+          labels.add('huge-request')
         else:
           size = avail * spec[1] // 8
-        if kind == 'num':
+        if kind in ('num', 'int') and spec[0] == 'huge':
+          n = HUGE_COUNT[spec[1] % len(HUGE_COUNT)]
+          align = 8 if kind == 'num' else 4
+          size = n * align          # true (unwrapped) byte size
+          a, b = n, 0
+          labels.add('huge-count')
+        elif kind == 'num':
           n, size, align = size // 8, (size // 8) * 8, 8
           a, b = n, 0
         elif kind == 'int':
@@ -237,6 +254,14 @@ class Machine:
         else:
           align = 1 << op[2]
           a, b = size, align
+        if self.variant == 'asan' and kind == 'arena' and pa0 + ((-pa0) % align) + size >= 2 ** 64:
+          labels.add('skipped-in-asan:huge-size-wrap')      # same known finding, arena side (aborts the ASan runtime)
+          continue
+        if self.variant == 'asan' and kind in ('byte', 'info') and 0 < 2 ** 64 - size <= 64 + align:
+          # known finding (huge-size wrap): in the ASan build the wrapped request reaches ASAN_UNPOISON with an inverted
+          # range and the sanitizer runtime aborts; judged on the release build only
+          labels.add('skipped-in-asan:huge-size-wrap')
+          continue
         rc = h.c19_op(d.ptr, OPCODE[kind], a, b, C.byref(r))
         ps1, pb1, pa1, p = int(r.pstack), int(r.pbase), int(r.parena), int(r.ptr)
         labels.add('align=%d' % align)
@@ -260,7 +285,16 @@ class Machine:
             verify_live('after failed mj_arenaAllocByte')
             continue
           if size > avail:
-            self.fail('mj_arenaAllocByte(%d) succeeded with only %d bytes available' % (size, avail), 'missed-exhaustion')
+            msg = 'mj_arenaAllocByte(%d) succeeded with only %d bytes available (parena %d)' % (size, avail, pa0)
+            if pa0 + pad + size >= 2 ** 64:
+              # known finding (same root cause as the stack case): parena + padding + bytes wraps below bytes_available
+              self.ck.violation(msg + ' [variant=%s]' % self.variant, dict(memory=case['memory'], op=op, parena=pa0),
+                                bucket='huge-size-wrap-arena', fingerprint=KNOWN_WRAP)
+              labels.add('known:huge-size-wrap-arena')
+              stats['nulls'] += 1
+              unwind(' (after wrapped huge arena request)')
+              break
+            self.fail(msg, 'missed-exhaustion')
           if p % align:
             self.fail('mj_arenaAllocByte(%d, align %d) returned misaligned %#x' % (size, align, p), 'alignment')
           if p < arena + pa0 or p + size > arena + pa1 or pa1 + ps0 > narena:
@@ -282,7 +316,7 @@ class Machine:
           stats['fails'] += 1
           labels.add('fail:' + kind)
           msg = lib.raw.vf_last_error().decode(errors='replace')
-          if 'stack overflow' not in msg:
+          if 'stack overflow' not in msg and not (kind in ('num', 'int') and 'too large' in msg and size >= 2 ** 63):
             self.fail('unexpected error from stack allocation: %s' % msg[:300], 'stack-error')
           if size + (align - 1) + self.slack <= avail:
             self.fail('mj_stackAlloc(%d, align %d) reported exhaustion with %d bytes available' % (size, align, avail),
@@ -302,7 +336,16 @@ class Machine:
         if not p:
           self.fail('stack allocation of %d bytes returned NULL without error' % size, 'null')
         if size > avail:
-          self.fail('stack allocation of %d bytes succeeded with only %d available' % (size, avail), 'missed-exhaustion')
+          msg = 'stack allocation of %d bytes (align %d) succeeded with only %d available' % (size, align, avail)
+          if kind in ('byte', 'info') and 0 < 2 ** 64 - size < align:
+            # known finding: start_ptr = top - size wraps above the stack top and the alignment round-down brings it back
+            self.ck.violation(msg + ' [variant=%s]' % self.variant, dict(memory=case['memory'], op=op, pstack=ps0),
+                              bucket='huge-size-wrap', fingerprint=KNOWN_WRAP)
+            labels.add('known:huge-size-wrap')
+            stats['fails'] += 1
+            unwind(' (after wrapped huge request)')
+            break
+          self.fail(msg, 'missed-exhaustion')
         if p % align:
           self.fail('mj_stackAlloc(%d, align %d) returned misaligned %#x' % (size, align, p), 'alignment')
         if ps1 < ps0 + size or ps1 + pa0 > narena:
@@ -412,6 +455,7 @@ class Machine:
 # ------------------------------------------------------------------------------------------- pipeline probe
 
 KNOWN_FD = 'C19:mjd_stepFD-autoreset-inside-open-stack-frame'
+KNOWN_WRAP = 'C19:stack-alloc-size-near-2^64-wraps'
 
 
 def warn_numbers(lib, d):
